@@ -24,6 +24,7 @@ type c11Plugin struct {
 	Opts    string                 `json:"opts,omitempty"`
 	Script  map[string]interface{} `json:"script"`
 	Version string                 `json:"version,omitempty"`
+	Alt     string                 `json:"alt,omitempty"` // another executable under the same plugin name (-p x=/plug/opt/x -p x=/plug/opt/x-other)
 	Missing bool                   `json:"missing,omitempty"`
 	Kind    string                 `json:"kind"` // what the script is meant to be (healthy, error, exit, garbled, slow, ...)
 }
@@ -55,6 +56,9 @@ type c11Prelude struct {
 }
 
 func (c *c11Case) path(p *c11Plugin) string {
+	if p.Alt != "" {
+		return "/plug/opt/" + p.Name + p.Alt
+	}
 	if p.ByPath {
 		return "/plug/opt/" + p.Name
 	}
@@ -80,7 +84,7 @@ func (c *c11Case) spec() *simrt.Spec {
 	for i := range c.Plugins {
 		p := &c.Plugins[i]
 		ps := plugSpec{Name: p.Name, Opts: p.Opts, Script: p.Script, Version: p.Version, Missing: p.Missing}
-		if p.ByPath {
+		if p.ByPath || p.Alt != "" {
 			ps.Path = c.path(p)
 		}
 		cc.Plugins = append(cc.Plugins, ps)
@@ -548,35 +552,53 @@ func c11Judge(c *c11Case, wr *worldRun) *c11Verdict {
 				continue
 			}
 			// the feed of this plugin in this language group
-			var fc *fedCall
+			fs, _ := pl.Script["files"].([]interface{})
+			outPath := noteStr(pr.Notes, "req.output_path")
+			// does the feed fc carry exactly the items of this plugin's answer? ("" = yes)
+			differs := func(fc *fedCall) (string, string) {
+				if len(fc.Files) != len(fs) {
+					return "response-not-honoured:count", fmt.Sprintf("plugin %s answered with %d items, %d were handed to the file manager", pl.Name, len(fs), len(fc.Files))
+				}
+				for k, raw := range fs {
+					f, _ := raw.(map[string]interface{})
+					name, _ := f["name"].(string)
+					if name != "" && pl.Script["out_prefix"] == "$OUT" && outPath != "" && f["abs"] != true {
+						name = outPath + "/" + name
+					}
+					content, _ := f["content"].(string)
+					ip, _ := f["ip"].(string)
+					g := fc.Files[k]
+					if string(g.Content) != content || string(g.Name) != name || string(g.IP) != ip {
+						return "response-not-honoured:item", fmt.Sprintf("item %d of plugin %s's answer is (name %q, point %q, %d bytes) but (name %q, point %q, %d bytes) was handed to the file manager", k, pl.Name, name, ip, len(content), string(g.Name), string(g.IP), len(g.Content))
+					}
+				}
+				return "", ""
+			}
+			// two plugins may share a name (two executables): among the feeds under this name that no
+			// other process has been matched with, the one that carries this answer is this plugin's
+			var cands []int
 			for k := range groups[gi] {
-				if groups[gi][k].Src == pl.Name {
-					fc = &groups[gi][k]
+				if groups[gi][k].Src == pl.Name && used[fmt.Sprintf("%d|%d", gi, k)] == 0 {
+					cands = append(cands, k)
 				}
 			}
-			fs, _ := pl.Script["files"].([]interface{})
-			if fc == nil {
+			if len(cands) == 0 {
 				if len(fs) > 0 && exit == 0 {
 					return bad("response-not-honoured", "response-not-honoured:not-fed", "plugin %s answered healthily with %d items, but nothing of it was handed to the file manager", pl.Name, len(fs))
 				}
 				continue
 			}
-			outPath := noteStr(pr.Notes, "req.output_path")
-			if len(fc.Files) != len(fs) {
-				return bad("response-not-honoured", "response-not-honoured:count", "plugin %s answered with %d items, %d were handed to the file manager", pl.Name, len(fs), len(fc.Files))
+			matched := false
+			for _, k := range cands {
+				if sig, _ := differs(&groups[gi][k]); sig == "" {
+					used[fmt.Sprintf("%d|%d", gi, k)] = 1
+					matched = true
+					break
+				}
 			}
-			for k, raw := range fs {
-				f, _ := raw.(map[string]interface{})
-				name, _ := f["name"].(string)
-				if name != "" && pl.Script["out_prefix"] == "$OUT" && outPath != "" && f["abs"] != true {
-					name = outPath + "/" + name
-				}
-				content, _ := f["content"].(string)
-				ip, _ := f["ip"].(string)
-				g := fc.Files[k]
-				if string(g.Content) != content || string(g.Name) != name || string(g.IP) != ip {
-					return bad("response-not-honoured", "response-not-honoured:item", "item %d of plugin %s's answer is (name %q, point %q, %d bytes) but (name %q, point %q, %d bytes) was handed to the file manager", k, pl.Name, name, ip, len(content), string(g.Name), string(g.IP), len(g.Content))
-				}
+			if !matched {
+				sig, msg := differs(&groups[gi][cands[0]])
+				return bad("response-not-honoured", sig, "%s", msg)
 			}
 			v.Trivia["responses-compared"]++
 		}
@@ -822,6 +844,28 @@ func c11Check(a *artefacts, tier string, seed uint64, replay string) int {
 		for k := 0; k < np; k++ {
 			c.Plugins = append(c.Plugins, c11GenPlugin(r, k, c.limit(), backendFiles))
 		}
+		if np >= 2 && r.Chance(1, 2) {
+			// the same plugin name twice, two different executables (possibly linked against different
+			// thriftgo versions): what each receives depends on its own executable
+			c.Plugins[1].Name = c.Plugins[0].Name
+			c.Plugins[1].Alt = "-other"
+			c.Plugins[1].ByPath = true
+			if r.Chance(2, 3) {
+				// one of them linked against a thriftgo that understands compressed includes, the other not
+				vs := []string{[]string{"v0.4.2", "v0.5.0", "v1.0.0"}[r.Intn(3)], []string{"v0.4.1", "v0.3.99", ""}[r.Intn(3)]}
+				k := r.Intn(2)
+				// both answer healthily more often than not, so that the second one's request is compared
+				for t := 0; t < 6 && c.Plugins[0].Kind != "healthy"; t++ {
+					c.Plugins[0] = c11GenPlugin(r, 0, c.limit(), backendFiles)
+				}
+				for t := 0; t < 6 && c.Plugins[1].Script["decode"] != true; t++ {
+					c.Plugins[1] = c11GenPlugin(r, 1, c.limit(), backendFiles)
+				}
+				c.Plugins[1].Name, c.Plugins[1].Alt, c.Plugins[1].ByPath = c.Plugins[0].Name, "-other", true
+				c.Plugins[0].Version, c.Plugins[1].Version = vs[k], vs[1-k]
+				c.Compress = true
+			}
+		}
 		// a quarter of the cases are sessions: an earlier invocation in the same process with its own
 		// plugin (healthy, failing or slow) and its own time limit
 		if r.Chance(1, 4) {
@@ -834,6 +878,10 @@ func c11Check(a *artefacts, tier string, seed uint64, replay string) int {
 			}
 			pp := c11GenPlugin(r, 7, lim, backendFiles)
 			pp.Name = "q0"
+			if r.Chance(1, 3) && len(c.Plugins) > 0 {
+				// the earlier invocation used another executable under the name of this invocation's first plugin
+				pp.Name, pp.Alt, pp.ByPath = c.Plugins[0].Name, "-earlier", true
+			}
 			pre.Plugins = []c11Plugin{pp}
 			c.Prelude = append(c.Prelude, pre)
 		}
